@@ -58,6 +58,12 @@ def work(ctx):
                     E.gzlist(k.co_code), E.gstrs(k.co_names), E.gstrs(k.co_varnames), E.gstrs(k.co_freevars), E.gstrs(k.co_cellvars),
                     E.glist([E.g_pyconst(x) for x in k.co_consts], "pyconst"), E.gzlist(E.table_of(k)), gz(k.co_firstlineno)),
                     disview.t_view(disview.dis_view(k), E.t_pyconst), "spec dis_view %s:%s" % (origin, k.co_name), "spec-dis")
+                # the theorem's premise (view_wf) evaluated on this real code object, and its conclusion
+                ctx.case("(let code := %s in match mapM (to_const cfg) (co_consts code) with OK ks => ser_bool (view_wf cfg code ks) ++ "
+                         "match decode_code cfg code ks with OK d => ser_bool (zlist_eqb (ser_view ser_const (data_view (cd_blocks d))) "
+                         "(ser_view ser_const (dis_view cfg (co_code code) (co_names code) (co_varnames code) (co_freevars code) (co_cellvars code) ks "
+                         "(raw_entries (co_linetable code)) (co_firstlineno code)))) | Err _ => [2] end | Err _ => [3] end)" % E.g_pycode(k),
+                         [1, 1], "view_wf and K1 conclusion on %s:%s" % (origin, k.co_name), "wf-monitor")
                 ncases += 1
             except E.Unsupported:
                 pass
